@@ -247,6 +247,8 @@ impl Sys {
     pub async fn exec(&self, line: &str) -> crate::decode::Reply {
         match self.exec_raw(line, Fmt::Json).await {
             Ok(bytes) => crate::decode::decode_json(&bytes),
+            // what every frontend answers when the command does not parse
+            Err(e) if e.starts_with("parse:") => crate::decode::Reply { status: 400, message: format!("PARSE ERROR {e}"), ..Default::default() },
             Err(e) => crate::decode::Reply::failed(e),
         }
     }
